@@ -68,9 +68,11 @@ def evId : Ev → Nat
   | .sched id .. | .schedErr id | .rel id | .start id .. | .finish id .. | .ckpt id .. | .onErr id => id
   | .clock _ => 0
 
-/-- Ordered per-id rendering of executor/checkpoint events; `now` is the clock of the op. -/
-def renderEv (now : Int) : Ev → Option String
-  | .start id n r => some s!"s:{id}:{n}:{r}:{now}"
+/-- Ordered per-id rendering of executor/checkpoint events. (The clock value the harness reads inside Execute is
+not compared: the worker reads it outside the scheduler mutex, concurrently with the harness's `Add(0)` kicks,
+during which the mock clock transiently shows the deadline of a timer re-armed in the past.) -/
+def renderEv (_now : Int) : Ev → Option String
+  | .start id n r => some s!"s:{id}:{n}:{r}"
   | .finish id n => some s!"f:{id}:{n}"
   | .ckpt id t => some s!"c:{id}:{t}"
   | _ => none
@@ -233,37 +235,48 @@ def judge (_id : String) (lines : Array String) : Verdict := Id.run do
     if !idle.isEmpty then
       return .specfail "due-run-dispatched" s!"after `{" ".intercalate opT}` task(s) {idle} have a due occurrence, an idle worker and no run"
     -- (2) observed = model
-    let s' := step c.env s op
+    let expStatus : String := match op with
+      | .sched _ sc _ last => if (c.env.nx sc last).isSome then "ok" else "err"
+      | .rel _ => "ok"
+      | .adv _ => if s.tick then "refused" else "ok"
+      | .done id _ _ => if (aget s.busy (c.env.wk id)).any (fun it => it.id == id) then "ok" else "noinflight"
+    let oSorted := obsEvs.mergeSort (fun a b => decide (evId a.1 ≤ evId b.1))
+    let oEvs := renderList (oSorted.filterMap (fun (p : Ev × Option Int) => renderEv 0 p.1))
+    let diff (s' : St) : Option String :=
+      let newEvs := (s'.trace.take (s'.trace.length - s.trace.length)).reverse
+      let mEvs := renderList ((stableById newEvs).filterMap (renderEv s'.now))
+      if mEvs != oEvs then some s!"events model {mEvs} observed {oEvs}"
+      else if errCounts newEvs != errCounts (obsEvs.map (·.1)) then
+        some s!"ErrorFunc calls model {errCounts newEvs} observed {errCounts (obsEvs.map (·.1))}"
+      else
+        ([("q", renderQueue s'.queue), ("ix", renderIndex s'.index), ("w", renderWhen s'.swhen), ("tick", boolTok s'.tick)].findSome?
+          (fun (p : String × String) => match field (p.1 ++ "=") obs with
+            | some o => if o == p.2 then none else some s!"{p.1} model {p.2} observed {o}"
+            | none => some s!"missing {p.1}"))
+    let s0 := step c.env [] s op
+    -- A worker that finishes its run in the middle of an Ascend pass: the items of that worker visited before that
+    -- instant were skipped although they come first. Only a `done` op frees a worker; the alternative is taken from
+    -- the observed starts and replayed on the model (`skip`), everything else must still agree.
+    let (s', raced) : St × Bool := match diff s0, op with
+      | some _, .done id _ _ =>
+        let w := c.env.wk id
+        let started := obsEvs.filterMap (fun p => match p.1 with | .start i _ _ => some i | _ => none)
+        let skip := (s.queue.filter (fun it => c.env.wk it.id == w && !started.contains it.id)).map (·.id)
+        let s1 := step c.env skip s op
+        if (diff s1).isNone then (s1, true) else (s0, false)
+      | _, _ => (s0, false)
     c := noteBranches c op s s'
+    c := addBrIf c raced "worker-freed-mid-pass"
     c := { c with model := s' }
     -- the oracle tables must cover what the model looked up
     for it in s'.queue do
       if c.tbls.any (fun tb => tb.sc == it.sc && tb.truncatedAt == some it.next) then
         return .badop s!"schedule table too short for {l}"
     if status == "unsettled" then return .mismatch s!"the implementation did not become quiescent after `{" ".intercalate opT}`"
-    let expStatus : String := match op with
-      | .sched _ sc _ last => if (c.env.nx sc last).isSome then "ok" else "err"
-      | .rel _ => "ok"
-      | .adv _ => if s.tick then "refused" else "ok"
-      | .done id _ _ => if (aget s.busy (c.env.wk id)).any (fun it => it.id == id) then "ok" else "noinflight"
     if status != expStatus then return .mismatch s!"`{" ".intercalate opT}`: status model {expStatus} observed {status}"
-    let newEvs := (s'.trace.take (s'.trace.length - s.trace.length)).reverse
-    let mEvs := renderList ((stableById newEvs).filterMap (renderEv s'.now))
-    let oSorted := obsEvs.mergeSort (fun a b => decide (evId a.1 ≤ evId b.1))
-    let oEvs := renderList (oSorted.filterMap (fun (p : Ev × Option Int) => match p.1, p.2 with
-        | Ev.start id n r, some clk => some s!"s:{id}:{n}:{r}:{clk}"
-        | e, _ => renderEv 0 e))
-    if mEvs != oEvs then return .mismatch s!"`{" ".intercalate opT}`: events model {mEvs} observed {oEvs}"
-    if errCounts newEvs != errCounts (obsEvs.map (·.1)) then
-      return .mismatch s!"`{" ".intercalate opT}`: ErrorFunc calls model {errCounts newEvs} observed {errCounts (obsEvs.map (·.1))}"
-    let chk (name : String) (m : String) : Option String :=
-      match field (name ++ "=") obs with
-      | some o => if o == m then none else some s!"`{" ".intercalate opT}`: {name} model {m} observed {o}"
-      | none => some s!"missing {name}"
-    for (name, m) in [("q", renderQueue s'.queue), ("ix", renderIndex s'.index), ("w", renderWhen s'.swhen), ("tick", boolTok s'.tick)] do
-      match chk name m with
-      | some d => return .mismatch d
-      | none => pure ()
+    match diff s' with
+    | some d => return .mismatch s!"`{" ".intercalate opT}`: {d}"
+    | none => pure ()
     if s'.now != c.mon.now then return .mismatch "clock"
   let nt := c.starts ≥ 3 && c.interesting ≥ 1
   return .ok nt c.branches.reverse
